@@ -34,6 +34,9 @@ type c3fCase struct {
 	// UnusedArg: a reference bound to a template argument that the template text never mentions (a shared argument set):
 	// its package is not referenced from the body and must not be imported
 	UnusedArg string `json:"unusedarg,omitempty"`
+	// DotImport: a hand-written file of the target package dot-imports the first referenced package (and renames the second
+	// one); the generated file chooses its own import names all the same
+	DotImport bool `json:"dotimport,omitempty"`
 }
 
 var c3fDirPool = []string{
@@ -82,6 +85,7 @@ func genC03File(t *rapid.T) c3fCase {
 		c.SkipRef = rapid.SampledFrom([]string{"time.Duration", "os.File", "net/url.URL", "crypto/rand.Reader"}).Draw(t, "skiprefv")
 		c.SkipErr = rapid.SampledFrom([]string{"skip", "ignore", "wrapskip"}).Draw(t, "skiperr")
 	}
+	c.DotImport = rapid.IntRange(0, 3).Draw(t, "dotimport") == 0
 	if rapid.IntRange(0, 2).Draw(t, "unusedarg") == 0 {
 		c.UnusedArg = rapid.SampledFrom([]string{"net/http.Client", "bufio.Reader", "container/list.List", "hash/crc32.Table"}).Draw(t, "unusedargv")
 	}
@@ -98,10 +102,19 @@ func (c c3fCase) module() (modspec.Mod, []string) {
 		}}}})
 		refs = append(refs, fmt.Sprintf("%s/%s.T%d", c.ModPath, d, i))
 	}
-	m.Pkgs = append(m.Pkgs, modspec.Pkg{Dir: "target", Name: "target", Files: []modspec.GoFile{{Name: "t.go", Decls: []modspec.Decl{
+	target := modspec.Pkg{Dir: "target", Name: "target", Files: []modspec.GoFile{{Name: "t.go", Decls: []modspec.Decl{
 		{Kind: "struct", Name: "Target", Fields: []modspec.Field{{Names: []string{"A"}, Type: "int"}}},
 		{Kind: "struct", Name: "Own", Fields: []modspec.Field{{Names: []string{"A"}, Type: "int"}}},
-	}}}})
+	}}}}
+	if c.DotImport && len(c.Dirs) > 0 {
+		src := "package target\n\nimport . \"" + c.ModPath + "/" + c.Dirs[0] + "\"\n"
+		if len(c.Dirs) > 1 {
+			src += "\nimport renamed_by_hand \"" + c.ModPath + "/" + c.Dirs[1] + "\"\n\nvar _ renamed_by_hand.T1\n"
+		}
+		src += "\nvar _ = T0{}\n"
+		target.Other = append(target.Other, modspec.File{Name: "dot.go", Data: src})
+	}
+	m.Pkgs = append(m.Pkgs, target)
 	return m, refs
 }
 
